@@ -1,0 +1,122 @@
+//go:build verif
+
+package mcp
+
+import (
+	"context"
+	"io"
+	"reflect"
+	"time"
+
+	"github.com/getkin/kin-openapi/openapi3"
+	"trpc.group/trpc-go/trpc-mcp-go/internal/retry"
+	"trpc.group/trpc-go/trpc-mcp-go/internal/schema"
+	"trpc.group/trpc-go/trpc-mcp-go/internal/verifhook"
+)
+
+// Verification hooks (build tag "verif"). Nothing here changes behaviour; the
+// functions expose private state read-only or run existing code over
+// caller-supplied streams.
+
+// VerifServeStdio runs the stdio server loop of s over r / w instead of
+// os.Stdin / os.Stdout.
+func VerifServeStdio(ctx context.Context, s *StdioServer, r io.Reader, w io.Writer) error {
+	transport := newStdioTransport(s.internal, withStdioErrorLogger(s.logger), withStdioContextFunc(s.contextFunc))
+	ctx, cancel := context.WithCancel(ctx)
+	defer cancel()
+	return transport.listen(ctx, r, w)
+}
+
+// VerifPendingServerRequests returns the number of server-to-client requests
+// still registered as pending in server (a *Server, *SSEServer or *StdioServer).
+func VerifPendingServerRequests(server interface{}) int {
+	switch s := server.(type) {
+	case *Server:
+		rm := s.httpHandler.responseManager
+		rm.mutex.RLock()
+		defer rm.mutex.RUnlock()
+		return len(rm.pendingRequests)
+	case *SSEServer:
+		s.responsesMu.RLock()
+		defer s.responsesMu.RUnlock()
+		return len(s.responses)
+	case *StdioServer:
+		s.responsesMu.RLock()
+		defer s.responsesMu.RUnlock()
+		return len(s.responses)
+	}
+	return -1
+}
+
+// VerifStreamCount returns the number of registered listening (GET) streams of a *Server,
+// or of live sessions of an *SSEServer.
+func VerifStreamCount(server interface{}) int {
+	switch s := server.(type) {
+	case *Server:
+		s.httpHandler.getSSEConnectionsLock.RLock()
+		defer s.httpHandler.getSSEConnectionsLock.RUnlock()
+		return len(s.httpHandler.getSSEConnections)
+	case *SSEServer:
+		n := 0
+		s.sessions.Range(func(_, _ interface{}) bool { n++; return true })
+		return n
+	}
+	return -1
+}
+
+// VerifPendingClientRequests returns the number of requests a client (*Client
+// or *StdioClient) still tracks as pending; -1 when the transport keeps none.
+func VerifPendingClientRequests(client interface{}) int {
+	switch c := client.(type) {
+	case *Client:
+		if t, ok := c.transport.(*sseClientTransport); ok {
+			t.responsesMu.RLock()
+			defer t.responsesMu.RUnlock()
+			return len(t.responses)
+		}
+		return -1
+	case *StdioClient:
+		c.transport.pendingMutex.RLock()
+		defer c.transport.pendingMutex.RUnlock()
+		return len(c.transport.pendingRequests)
+	}
+	return -1
+}
+
+// VerifRetryConfig mirrors internal/retry.Config.
+type VerifRetryConfig = retry.Config
+
+// VerifRetryExecute re-exports internal/retry.Execute.
+func VerifRetryExecute(ctx context.Context, op func() error, cfg *VerifRetryConfig, name string) error {
+	return retry.Execute(ctx, op, cfg, name)
+}
+
+// VerifRetryIsRetryable re-exports internal/retry.IsRetryableError.
+func VerifRetryIsRetryable(err error) bool { return retry.IsRetryableError(err) }
+
+// VerifRetryValidate re-exports internal/retry.Config.Validate.
+func VerifRetryValidate(cfg VerifRetryConfig) VerifRetryConfig { return cfg.Validate() }
+
+// VerifClientRetryConfig returns the retry configuration a client ended up with (nil if none).
+func VerifClientRetryConfig(c *Client) *VerifRetryConfig { return c.retryConfig }
+
+// VerifSetBackoffObserver installs the observer of retry waits; returning true skips the wait.
+func VerifSetBackoffObserver(f func(time.Duration) bool) { verifhook.SetBackoff(f) }
+
+// VerifSetYield installs the schedule controller called at the instrumented points.
+func VerifSetYield(f func(point string)) { verifhook.SetYield(f) }
+
+// VerifSchemaForType generates the schema of a run-time type in the given
+// style: 0 inline, 1 $defs, 2 nested $ref (the three public SchemaOptions).
+func VerifSchemaForType(t reflect.Type, style int) *openapi3.Schema {
+	opts := schema.DefaultConverterOptions
+	switch style {
+	case 0:
+		WithInlineStyle()(&opts)
+	case 1:
+		WithRefStyle()(&opts)
+	default:
+		WithNestedRefStyle()(&opts)
+	}
+	return schema.SchemaForType(t, opts)
+}
